@@ -204,8 +204,10 @@ void tmcg_mpz_fpowm
 
 	if (mpz_cmp(m, fpowm_table[0]))
 		throw std::invalid_argument("tmcg_mpz_fpowm: wrong base");
+	/* res and x may be the same variable: remember the sign of x now */
+	const bool x_negative = (mpz_sgn(x) == -1);
 	mpz_init_set(xx, x);
-	if (mpz_sgn(x) == -1)
+	if (x_negative)
 		mpz_neg(xx, x);
 	
 	if (mpz_sizeinbase(xx, 2UL) <= TMCG_MAX_FPOWM_T)
@@ -220,7 +222,7 @@ void tmcg_mpz_fpowm
 			}
 		}
 		/* invert the result, if x was negative */
-		if (mpz_sgn(x) == -1)
+		if (x_negative)
 		{
 			if (!mpz_invert(res, res, p))
 			{
@@ -274,8 +276,10 @@ void tmcg_mpz_fspowm
 
 	if (mpz_cmp(m, fpowm_table[0]))
 		throw std::invalid_argument("tmcg_mpz_fspowm: wrong base");
+	/* res and x may be the same variable: remember the sign of x now */
+	const bool x_negative = (mpz_sgn(x) == -1);
 	mpz_init(foo), mpz_init(bar), mpz_init(baz), mpz_init_set(xx, x);
-	if (mpz_sgn(x) == -1)
+	if (x_negative)
 		mpz_neg(xx, x);
 	else
 		mpz_neg(bar, x);
@@ -300,7 +304,7 @@ void tmcg_mpz_fspowm
 			mpz_clear(foo), mpz_clear(bar), mpz_clear(baz), mpz_clear(xx);
 			throw std::runtime_error("tmcg_mpz_fspowm: mpz_invert failed");
 		}
-		if (mpz_sgn(x) == -1)
+		if (x_negative)
 			mpz_set(res, foo);
 		else
 			mpz_set(baz, foo);
